@@ -26,7 +26,7 @@ ASSUMPTIONS = [
     "closed form via scipy.linalg.expm; tolerance 1e-4*scale+1e-6 against integrator rtol=atol=1e-8",
     "the time reported for a steady-state row is left free (only monotonicity is demanded); after clear_results the run restarts at t=0 from Simulator.y0 as read from the public attribute",
 ]
-N = {"quick": 800, "thorough": 10000}
+N = {"quick": 800, "thorough": 150000}
 MIN_NONTRIVIAL = {"quick": 60, "thorough": 1000}
 
 
